@@ -170,12 +170,14 @@ def blAdd (b : List (Option Nat × List Nat)) (k : Option Nat) (ts : List Nat) :
 def blDel (b : List (Option Nat × List Nat)) (k : Option Nat) : List (Option Nat × List Nat) :=
   b.filter (fun e => e.1 ≠ k)
 
-/-- `idx % n_names` over the registered queues -/
-def roundRobin (queues : List Nat) (ts : List Nat) : List (Nat × Nat) :=
-  (List.range ts.length).filterMap (fun i =>
-    match queues[i % queues.length]?, ts[i]? with
-    | some q, some t => some (q, t)
-    | _, _ => none)
+/-- `names[idx % n_names]` for the request with index `idx` -/
+def rrFrom (queues : List Nat) : Nat → List Nat → List (Nat × Nat)
+  | _, []      => []
+  | i, t :: ts => (match queues[i % queues.length]? with
+                   | some q => [(q, t)]
+                   | none   => []) ++ rrFrom queues (i + 1) ts
+
+def roundRobin (queues : List Nat) (ts : List Nat) : List (Nat × Nat) := rrFrom queues 0 ts
 
 /-- one drain of `_schedule_incoming`: the raptor requests of this drain, grouped by key in
     first-occurrence order -/
